@@ -224,9 +224,9 @@ func fuzzSpace2(w *W, run func(input, desc string)) {
 			var sb strings.Builder
 			sb.WriteString(th.h)
 			valid := !(mask&(1<<2) != 0 && mask&(1<<3) != 0) && !(mask&(1<<7) != 0 && mask&(1<<8) != 0)
-			for b, t := range tailParts {
+			for _, b := range []int{0, 1, 2, 3, 4, 5, 6, 9, 7, 8} { // grammar order: both FORMAT forms before SETTINGS
 				if mask&(1<<b) != 0 {
-					sb.WriteString(t)
+					sb.WriteString(tailParts[b])
 					if !strings.Contains(th.ok, string(rune('0'+b))) {
 						valid = false
 					}
